@@ -51,6 +51,8 @@ def run_property(prop):
         o.sample = {'paths': r['paths'], 'witnesses': r['witnesses'], 'counterexample': r.get('counterexample')}
         if o.status == 'violated':
             confirm_violation(prop, o, r)
+            if o.status == 'violated':
+                match_known_finding(prop, o, r)
         if o.status == 'holds' and not o.nonvacuous:
             o.status, o.detail = 'inconclusive', 'no reachability witness'
         log(f'   {o.status:12s} {o.name} ({o.time_s:.1f}s, {o.queries} queries, {r["paths"]} paths) {o.detail[:200]}')
@@ -87,3 +89,23 @@ def confirm_violation(prop, o, r):
     else:
         o.status = 'inconclusive'
         o.detail = f'native replay could not run: {why}'
+
+
+def match_known_finding(prop, o, r):
+    """A natively reproduced violation that is listed in /verif/known_findings.json (by property, obligation role and the
+    characteristic of the failing input) is reported as KNOWN-FINDING; anything else stays a VIOLATION."""
+    from common import load_known_findings
+    case = r.get('case') or {}
+    for f in load_known_findings().get('findings', []):
+        if f.get('property') != prop or not o.name.startswith(f.get('obligation_prefix', '\0')):
+            continue
+        if f.get('name_contains') and f['name_contains'] not in o.name:
+            continue
+        cond = f.get('case_condition')
+        ok = True
+        if cond == 'negative_activity_estimate':
+            ok = case.get('kind') == 'fold_order' and min(case.get('activity_estimates', [0])) < 0
+        if ok:
+            o.status = 'known-finding'
+            o.detail = f"{f['key']}: {f['what']} [this run: {o.replay}]"
+            return
